@@ -153,7 +153,18 @@ func latin1Text(r *core.Rand, n int, lineMax int) string {
 
 func genSubject(r *core.Rand) string {
 	var s string
-	switch r.Pick(5, 2, 2, 1, 1) {
+	switch r.Pick(5, 2, 2, 1, 1, 1) {
+	case 5:
+		// many non-ASCII characters: the word-encoded form approaches the
+		// 128-byte header limit and the re-encoded proposal title gets long
+		var sb strings.Builder
+		for i, n := 0, r.Range(8, 40); i < n; i++ {
+			sb.WriteRune(rune(r.Range(0xc0, 0xff)))
+			if r.Chance(0.15) {
+				sb.WriteByte(' ')
+			}
+		}
+		s = sb.String()
 	case 0:
 		s = fmt.Sprintf("Test message %d", r.Intn(100000))
 	case 1:
